@@ -925,12 +925,14 @@ class PDFDocument:
                     visited.add(entry.objid)
                 entry = dict_value(entry)
                 if "Title" in entry:
-                    if "A" in entry or "Dest" in entry:
-                        title = decode_text(str_value(entry["Title"]))
-                        dest = entry.get("Dest")
-                        action = entry.get("A")
-                        se = entry.get("SE")
-                        yield (level, title, dest, action, se)
+                    # /Dest and /A are both optional (PDF 32000-1 Table 153):
+                    # an item that only groups its children is still listed,
+                    # with dest and action set to None.
+                    title = decode_text(str_value(entry["Title"]))
+                    dest = entry.get("Dest")
+                    action = entry.get("A")
+                    se = entry.get("SE")
+                    yield (level, title, dest, action, se)
                 if "First" in entry and "Last" in entry:
                     yield from search(entry["First"], level + 1)
                 entry = entry.get("Next")
